@@ -9,3 +9,28 @@ Theorem model_coil_conversions_use_them :
   /\ coil_to_bool (snd (fst (fst (fst gen_COIL)))) = Val true /\ coil_to_bool (snd (fst (fst gen_COIL))) = Val false
   /\ forall (bs : list bool), packed_size bs = (len bs + snd (fst gen_COIL)) / snd gen_COIL.
 Proof. repeat split; reflexivity. Qed.
+
+(* ---- the two PDU decoders (decode_request_pdu_bytes / decode_response_pdu_bytes) regenerated from the source as read programs:
+   per function code the same cursor reads, checks, loops and variant as the model's programs; no arm for any other code; the
+   Custom limit and the error kinds of the two size checks.  Hence, for EVERY byte string, interpreting the code's program is
+   dec_req / dec_rsp -- the decoders all C08 theorems are about. ---- *)
+From TM Require Import Text Tables DecProg DecProgProofs.
+
+Theorem gen_req_dec_prog_is_model : expand_arms gen_req_dec_prog = expand_arms req_dec_prog_model.
+Proof. vm_compute. reflexivity. Qed.
+Theorem gen_rsp_dec_prog_is_model : expand_arms gen_rsp_dec_prog = expand_arms rsp_dec_prog_model.
+Proof. vm_compute. reflexivity. Qed.
+Theorem gen_dec_keys_are_bytes : keys_small gen_req_dec_prog = true /\ keys_small gen_rsp_dec_prog = true.
+Proof. split; vm_compute; reflexivity. Qed.
+Theorem gen_req_custom_below_is_model : gen_req_custom_below = 0x80.
+Proof. reflexivity. Qed.
+(* check_request_pdu_size fails with InvalidData, check_response_pdu_size with InvalidInput (sic): as chk_req_pdu_size / chk_rsp_pdu_size *)
+Theorem gen_chk_kinds_are_model : gen_chk_kinds = (show_kind KInvalidData, show_kind KInvalidInput).
+Proof. vm_compute. reflexivity. Qed.
+
+Theorem code_request_decoder_is_dec_req : forall bs, run_req_dec gen_req_dec_prog gen_req_custom_below bs = dec_req bs.
+Proof.
+  intros bs. apply run_req_dec_is_dec_req; [exact gen_req_dec_prog_is_model|apply gen_dec_keys_are_bytes|exact gen_req_custom_below_is_model].
+Qed.
+Theorem code_response_decoder_is_dec_rsp : forall bs, run_rsp_dec gen_rsp_dec_prog bs = dec_rsp bs.
+Proof. intros bs. apply run_rsp_dec_is_dec_rsp; [exact gen_rsp_dec_prog_is_model|apply gen_dec_keys_are_bytes]. Qed.
